@@ -10,7 +10,7 @@ from pyvc import spec as S
 EXPLANATION = ("djs_reject: mask algebra (inmask, sticky, three limits in units of sigma / 1/sqrt(invvar) / absolute, qdone) proved for "
                "arrays of every length with grow=0; growth by neighbours decided as a bounded stand-in on the real code.")
 UNDECIDED = ["djs_reject with maxrej/groupdim/groupsize/groupbadpix (sorting-based partial rejection)",
-             "djs_maskinterp / djs_maskinterp1, aesthetics, djs_median (reflect), skymask: not yet under contract",
+             "djs_maskinterp / djs_maskinterp1, aesthetics, djs_median (reflect), skymask: only bounded numerical stand-ins against independent reference implementations (B), not proved",
              "np.interp / medfilt kernels (trusted, T)"]
 
 
@@ -208,3 +208,281 @@ class RejectGrow4(_RejectGrow):
 
     def cases(self, tier):
         return super().cases(tier) if tier == "thorough" else []
+
+
+# ---------------------------------------------------------------------------
+# mask interpolation, aesthetics, reflecting median, sky mask: bounded stand-ins against independent reference implementations
+# ---------------------------------------------------------------------------
+def _ref_maskinterp1(y, mask, x=None):
+    """masked samples -> linear interpolation between the nearest unmasked neighbours (in index, or in x), end values held constant"""
+    y = np.asarray(y, dtype=float)
+    n = y.size
+    good = [i for i in range(n) if mask[i] == 0]
+    if len(good) == n or len(good) == 0:
+        return y.copy()
+    if len(good) == 1:
+        return np.full(n, y[good[0]])
+    pos = np.arange(n, dtype=float) if x is None else np.asarray(x, dtype=float)
+    out = y.copy()
+    order = sorted(good, key=lambda i: pos[i])
+    for i in range(n):
+        if mask[i] == 0:
+            continue
+        below = [g for g in order if pos[g] <= pos[i]]
+        above = [g for g in order if pos[g] >= pos[i]]
+        if not below:
+            out[i] = y[order[0]]
+        elif not above:
+            out[i] = y[order[-1]]
+        else:
+            a, b = below[-1], above[0]
+            out[i] = y[a] if pos[a] == pos[b] else y[a] + (pos[i] - pos[a]) / (pos[b] - pos[a]) * (y[b] - y[a])
+    return out
+
+
+class _NumericJob:
+    prop = "C17"
+    level = "B"
+    KINDS = ()
+
+    def _cases(self, rng, n):
+        raise NotImplementedError
+
+    def _check(self, c):
+        raise NotImplementedError
+
+    def run_job(self, tier, seed, exclusions):
+        import random
+        import time
+        import traceback
+        t0 = time.time()
+        res = JobResult(job=self.name, target=self.target, level="B", prop=self.prop, obligations=[], failures=[], crashed=None, bound=self.bound,
+                        paths=0, solver_s=0.0, queries=0, native_runs=0, native_failures=[], vacuity=None,
+                        assumptions=["numerical comparison with an independent reference implementation on generated inputs only"])
+        fails = {}
+        n = 0
+        try:
+            rng = random.Random(seed * 29 + 11)
+            for c in self._cases(rng, self.NQ if tier == "quick" else self.NT):
+                n += 1
+                try:
+                    for kind, msg in self._check(c):
+                        fails.setdefault(kind, []).append((msg, c["inp"]))
+                except Exception as e:
+                    fails.setdefault("no_unexpected_exception", []).append(("%s: %s" % (type(e).__name__, str(e)[:150]), c["inp"]))
+            res["paths"] = res["native_runs"] = n
+            for kd in self.KINDS + ("no_unexpected_exception",):
+                b = fails.get(kd, [])
+                d = dict(name=self.name + ":" + kd, path=0, status="unsat" if not b else "sat", secs=0.0, backend="native-numeric", size=0, note="" if not b else b[0][0])
+                if b:
+                    d.update(inputs=dict(clause=kd, seed=seed, **b[0][1]), model=str(b[:2])[:1000], reason="")
+                res["obligations"].append(d)
+            res["vacuity"] = dict(cases=n)
+        except Exception:
+            res["crashed"] = traceback.format_exc()
+        res["wall_s"] = time.time() - t0
+        return res
+
+    def native_replay(self, inputs):
+        import random
+        rng = random.Random(int(inputs.get("seed", 0)) * 29 + 11)
+        last = None
+        for c in self._cases(rng, int(inputs["rep"]) + 1):
+            last = c
+        try:
+            bad = self._check(last)
+        except Exception as e:
+            bad = [("no_unexpected_exception", "%s: %s" % (type(e).__name__, e))]
+        return (not bad, "case %s: %s" % (last["inp"], bad[:2]))
+
+
+@register("C17")
+class MaskInterp(_NumericJob):
+    name = "djs_maskinterp"
+    target = "pydl.pydlutils.image:djs_maskinterp, djs_maskinterp1"
+    bound = "1-D arrays of length 1..12 and 2-D / 3-D arrays up to 4x5x3, every axis, random masks incl. all/none/one good, x ascending / descending / shuffled, const on/off"
+    KINDS = ("masked_samples_interpolated_between_nearest_good_neighbours", "unmasked_samples_unchanged", "input_not_modified")
+    NQ, NT = 400, 4000
+
+    def _cases(self, rng, n):
+        for rep in range(n):
+            nd = rng.choice([1, 1, 2, 3])
+            shape = (rng.randint(1, 12),) if nd == 1 else ((rng.randint(1, 4), rng.randint(2, 5)) if nd == 2 else (rng.randint(1, 3), rng.randint(2, 4), rng.randint(2, 3)))
+            y = np.array([rng.uniform(-5, 5) for _ in range(int(np.prod(shape)))]).reshape(shape)
+            pm = rng.choice([0.0, 0.2, 0.5, 0.9, 1.0])
+            mask = np.array([1 if rng.random() < pm else 0 for _ in range(y.size)]).reshape(shape)
+            axis = None if nd == 1 else rng.randint(0, nd - 1)
+            xk = rng.choice(["none", "ascending", "descending", "shuffled"])
+            x = None
+            if xk != "none":
+                x = np.zeros(shape)
+                it = np.nditer(np.zeros([s for k, s in enumerate(shape) if nd == 1 or k != self._line_axis(nd, axis)] or [1]), flags=["multi_index"])
+                x = np.apply_along_axis(lambda v: self._xline(rng, v.size, xk), 0 if nd == 1 else self._line_axis(nd, axis), x)
+            yield dict(y=y, mask=mask, x=x, axis=axis, const=rng.random() < 0.5,
+                       inp=dict(rep=rep, shape=list(shape), axis=axis, x=xk, masked_fraction=pm))
+
+    @staticmethod
+    def _line_axis(nd, axis):
+        """djs_maskinterp's convention: axis=0 interpolates along the LAST index of a 2-D array (rows), see the code's loops"""
+        if nd == 2:
+            return 1 if axis == 0 else 0
+        return {0: 2, 1: 1, 2: 0}[axis]
+
+    @staticmethod
+    def _xline(rng, n, kind):
+        v = np.cumsum([rng.uniform(0.5, 2.0) for _ in range(n)])
+        if kind == "descending":
+            v = v[::-1].copy()
+        elif kind == "shuffled":
+            v = v.copy()
+            rng.shuffle(v)
+        return v
+
+    def _check(self, c):
+        from pydl.pydlutils.image import djs_maskinterp
+        y, mask, x, axis = c["y"], c["mask"], c["x"], c["axis"]
+        y0 = y.copy()
+        out = djs_maskinterp(y, mask, xval=x, axis=axis, const=c["const"])
+        bad = []
+        if not np.array_equal(y, y0):
+            bad.append(("input_not_modified", "yval changed in place"))
+        nd = y.ndim
+        la = 0 if nd == 1 else self._line_axis(nd, axis)
+        exp = np.zeros(y.shape)
+        ym, mm = np.moveaxis(y0, la, -1), np.moveaxis(mask, la, -1)
+        xm = None if x is None else np.moveaxis(x, la, -1)
+        em = np.moveaxis(exp, la, -1)
+        for idx in np.ndindex(*ym.shape[:-1]):
+            em[idx] = _ref_maskinterp1(ym[idx], mm[idx], None if xm is None else xm[idx])
+        out = np.asarray(out, dtype=float)
+        if out.shape != y.shape:
+            return bad + [("masked_samples_interpolated_between_nearest_good_neighbours", "shape %s" % (out.shape,))]
+        if not np.allclose(out[mask == 0], y0[mask == 0], rtol=0, atol=0):
+            bad.append(("unmasked_samples_unchanged", "an unmasked sample changed"))
+        if not np.allclose(out, exp, rtol=1e-10, atol=1e-12):
+            w = np.unravel_index(np.abs(out - exp).argmax(), out.shape)
+            bad.append(("masked_samples_interpolated_between_nearest_good_neighbours", "at %s got %g expected %g" % (w, out[w], exp[w])))
+        return bad
+
+
+@register("C17")
+class Aesthetics(_NumericJob):
+    name = "aesthetics"
+    target = "pydl.pydlspec2d.spec2d:aesthetics"
+    bound = "spectra of 5..40 pixels, random zero-weight patterns incl. none / all / ends, the four methods traditional, noconst, mean, nothing"
+    KINDS = ("flux_changes_only_where_invvar_is_zero", "replacement_rule_of_the_method", "inputs_not_modified")
+    NQ, NT = 300, 3000
+
+    def _cases(self, rng, n):
+        for rep in range(n):
+            m = rng.randint(5, 40)
+            flux = np.array([rng.uniform(-5, 5) for _ in range(m)])
+            pz = rng.choice([0.0, 0.1, 0.4, 1.0])
+            iv = np.array([0.0 if rng.random() < pz else rng.uniform(0.5, 2) for _ in range(m)])
+            if rng.random() < 0.3:
+                iv[:rng.randint(1, 3)] = 0.0
+                iv[-rng.randint(1, 3):] = 0.0
+            yield dict(flux=flux, iv=iv, method=rng.choice(["traditional", "noconst", "mean", "nothing"]), inp=dict(rep=rep, npix=m, zero_fraction=pz))
+
+    def _check(self, c):
+        from pydl.pydlspec2d.spec2d import aesthetics
+        flux, iv, method = c["flux"], c["iv"], c["method"]
+        f0, i0 = flux.copy(), iv.copy()
+        out = np.asarray(aesthetics(flux, iv, method=method), dtype=float)
+        bad = []
+        if not (np.array_equal(flux, f0) and np.array_equal(iv, i0)):
+            bad.append(("inputs_not_modified", "flux or invvar changed in place (method %s)" % method))
+        if out.shape != f0.shape or not np.array_equal(out[i0 != 0], f0[i0 != 0]):
+            bad.append(("flux_changes_only_where_invvar_is_zero", "method %s changed a pixel with non-zero inverse variance" % method))
+        zero = i0 == 0
+        if zero.any() and not zero.all() and out.shape == f0.shape:
+            if method in ("traditional", "noconst"):
+                exp = _ref_maskinterp1(f0, zero.astype(int))
+            elif method == "mean":
+                exp = np.where(zero, f0[~zero].mean(), f0)
+            else:
+                exp = f0
+            if not np.allclose(out, exp, rtol=1e-10, atol=1e-12):
+                bad.append(("replacement_rule_of_the_method", "method %s: max deviation %g" % (method, np.abs(out - exp).max())))
+        return bad
+
+
+@register("C17")
+class ReflectMedian(_NumericJob):
+    name = "djs_median_reflect"
+    target = "pydl.pydlutils.math:djs_median"
+    bound = "1-D arrays of length 3..30, odd widths 3..min(n, 11), boundary='reflect' against scipy.ndimage.median_filter(mode='reflect')"
+    KINDS = ("equals_median_filter_with_symmetric_reflection", "input_not_modified")
+    NQ, NT = 300, 3000
+
+    def _cases(self, rng, n):
+        for rep in range(n):
+            m = rng.randint(3, 30)
+            w = rng.choice([k for k in range(3, min(m, 11) + 1, 2)])
+            yield dict(a=np.array([rng.uniform(-5, 5) for _ in range(m)]), w=w, inp=dict(rep=rep, n=m, width=w))
+
+    def _check(self, c):
+        from scipy.ndimage import median_filter
+        from pydl.pydlutils.math import djs_median
+        a, w = c["a"], c["w"]
+        a0 = a.copy()
+        out = np.asarray(djs_median(a, width=w, boundary="reflect"), dtype=float)
+        bad = []
+        if not np.array_equal(a, a0):
+            bad.append(("input_not_modified", "array changed in place"))
+        exp = median_filter(a0, size=w, mode="reflect")
+        if out.shape != exp.shape or not np.allclose(out, exp, rtol=0, atol=1e-12):
+            bad.append(("equals_median_filter_with_symmetric_reflection", "n=%d width=%d: %s vs %s" % (a0.size, w, np.round(out, 3).tolist()[:6], np.round(exp, 3).tolist()[:6])))
+        return bad
+
+
+@register("C17")
+class SkyMask(_NumericJob):
+    name = "skymask"
+    target = "pydl.pydlspec2d.spec1d:skymask"
+    bound = "1..3 rows of 8..40 pixels, mask dtypes int16/int32/int64/uint64, random BADSKYCHI/REDMONSTER/other flags incl. at the row ends, ngrow 0..4"
+    KINDS = ("zero_exactly_within_ngrow_of_a_flagged_pixel", "inputs_not_modified")
+    NQ, NT = 300, 3000
+    BITS = {"BADSKYCHI": 22, "REDMONSTER": 28, "BRIGHTSKY": 23, "NOPLUG": 0}
+
+    def _cases(self, rng, n):
+        for rep in range(n):
+            rows, npix = rng.randint(1, 3), rng.randint(8, 40)
+            dt = rng.choice(["int16", "int32", "int64", "uint64"])
+            om = np.zeros((rows, npix), dtype=dt)
+            for r in range(rows):
+                for _ in range(rng.randint(0, 3)):
+                    p = rng.choice([0, 1, npix - 2, npix - 1, rng.randint(0, npix - 1)])
+                    which = rng.choice(["BADSKYCHI", "REDMONSTER", "BRIGHTSKY", "NOPLUG", "SIGN"])
+                    if which == "SIGN":
+                        om[r, p] = {"int16": -32768, "int32": -1, "int64": -1, "uint64": 2 ** 63}[dt]
+                    elif not (dt == "int16" and self.BITS[which] > 14):
+                        om[r, p] |= np.array(2 ** self.BITS[which], dtype=dt)
+            # the stored word as an unsigned Python integer (two's complement of the stored width); bits 22 and 28 are the flags that count
+            width = 8 * om.dtype.itemsize
+            flagged = np.array([[((int(v) % 2 ** width) >> 22) & 1 or ((int(v) % 2 ** width) >> 28) & 1 for v in row] for row in om], dtype=bool)
+            iv = np.array([[rng.uniform(0.5, 2) for _ in range(npix)] for _ in range(rows)])
+            yield dict(iv=iv, om=om, flagged=flagged, ngrow=rng.randint(0, 4), inp=dict(rep=rep, rows=rows, npix=npix, dtype=dt))
+
+    def _check(self, c):
+        from unittest import mock
+        import pydl.pydlutils.sdss as sd
+        from pydl.pydlspec2d.spec1d import skymask
+        iv, om, flagged, g = c["iv"], c["om"], c["flagged"], c["ngrow"]
+        if 2 * g + 1 > iv.shape[1]:
+            g = 0
+        iv0, om0 = iv.copy(), om.copy()
+        with mock.patch.object(sd, "maskbits", {"SPPIXMASK": dict(self.BITS)}):
+            out = skymask(iv, om.copy(), ormask=om, ngrow=g)
+        bad = []
+        if not (np.array_equal(iv, iv0) and np.array_equal(om, om0)):
+            bad.append(("inputs_not_modified", "invvar or mask changed in place"))
+        exp = iv0.copy()
+        for r in range(iv.shape[0]):
+            for p in range(iv.shape[1]):
+                if flagged[r, max(0, p - g):p + g + 1].any():
+                    exp[r, p] = 0.0
+        if out.shape != exp.shape or not np.array_equal(np.asarray(out, dtype=float), exp):
+            w = np.argwhere(np.asarray(out, dtype=float) != exp)[:3].tolist()
+            bad.append(("zero_exactly_within_ngrow_of_a_flagged_pixel", "dtype %s ngrow %d: differs at %s" % (om.dtype, g, w)))
+        return bad
